@@ -192,6 +192,9 @@ def ob_inputs(run, oid):
             hashes = []
             for i, rd in enumerate(spec["readers"]):
                 t = K.peel(b.operand_term(c.args[i]))
+                mv = D.memo_value(prog, b, t)
+                if mv is not None:
+                    t = K.peel(mv)      # `memo.get_or_insert_with(|| self.votes.reader(hash))`: the memoised reader call
                 ok = isinstance(t, tuple) and t[0] == "call" and t[1] == SV + "::" + rd
                 o.check(ok, key + "|arg%d" % i, "argument %d is SlotVotes::%s(..) of this slot" % (i, rd), c.span, {"arg": mir.show(t)})
                 if ok and len(t[2]) > 1:
